@@ -77,6 +77,7 @@ static CO_ERR COTEmcyHistRead(struct CO_OBJ_T *obj, struct CO_NODE_T *node, void
     if (sub == 0) {
         result = uint8->Read(obj, node, buffer, size);
     } else {
+        ASSERT_EQU_ERR(size, COT_ENTRY_SIZE, CO_ERR_BAD_ARG);
         if (sub <= emcy->Hist.Num) {
             /* re-map entries to get newest at start of array */
             if (sub <= emcy->Hist.Off) {
